@@ -5,11 +5,13 @@
 package clusterlab
 
 import (
+	"encoding/binary"
 	"fmt"
 	"sort"
 	"strings"
 	"testing"
 
+	"github.com/emitter-io/emitter/internal/event"
 	"github.com/emitter-io/emitter/internal/message"
 	"github.com/emitter-io/emitter/internal/security"
 	"github.com/emitter-io/emitter/verif/lab/brokerlab"
@@ -41,13 +43,13 @@ func cstr(l []string) string { return strings.Join(l, "/") + "/" }
 var c05Filters = [][]string{{"a"}, {"a", "b"}, {"b", "a"}, {"a", "+"}, {"b"}, {"a", "b", "c"}, {"a", "a"}, {"b", "b"}}
 var c05Channels = [][]string{{"a"}, {"a", "b"}, {"b", "a"}, {"b"}, {"a", "b", "c"}, {"a", "a"}, {"b", "b"}, {"a", "c"}}
 
-var regimes = []string{"S0", "S1", "S2", "S3"}
+var regimes = []string{"S0", "S1", "S2", "S3", "S4"}
 
 func TestC05(t *testing.T) {
 	rec := vk.New("C05", "sim")
 	defer rec.Finish(t)
 	rec.Rule("case = (regime, seed): 2-4 real brokers on the simulated mesh transport (transcribed gossip sender, FIFO wires, real OnGossip*/Notify/Gossip), scripted clients subscribing/unsubscribing/disconnecting in bursts, " +
-		"interleaved with transport steps under regime S0 (immediate in-order delivery), S1 (payloads wait in sender slots and are coalesced), S2 (+ arbitrary choice of link/slot, sparse topologies with relaying, periodic full-state ticks), S3 (+ link down/up and broker isolation with peer GC); " +
+		"interleaved with transport steps under regime S0 (immediate in-order delivery), S1 (payloads wait in sender slots and are coalesced), S2 (+ arbitrary choice of link/slot, sparse topologies with relaying, periodic full-state ticks), S3 (+ links going down and coming back, dropping what was pending), S4 (+ a broker unreachable long enough to be garbage-collected by its peers, then returning); " +
 		"then quiescence (all links up, 3 rounds of tick+drain, peer queues flushed) and the oracle: per broker and channel the remote peers in its trie = the brokers with a live matching local subscriber, and one uniquely tagged publish per (broker, channel) reaches every live matching subscriber once and nobody else; " +
 		"non-trivial = cases with subscribers on >=2 brokers, >=1 unsubscribe or disconnect, and >=1 cross-broker delivery expected; distinct = hash of the operation list")
 	n := vk.N(48, 3000)
@@ -56,7 +58,7 @@ func TestC05(t *testing.T) {
 			continue
 		}
 		for ri, reg := range regimes {
-			runC05(rec, nil, ci*4+ri, ci, reg)
+			runC05(rec, nil, ci*5+ri, ci, reg)
 		}
 	}
 }
@@ -105,7 +107,7 @@ func runC05(rec5, rec13 *vk.Rec, caseID, seedIdx int, regime string) {
 	if regime == "S0" || regime == "S1" {
 		nb = r.Range(2, 3)
 	}
-	sparse := (regime == "S2" || regime == "S3") && r.Chance(50)
+	sparse := (regime == "S2" || regime == "S3" || regime == "S4") && r.Chance(50)
 	edges := topology(r, nb, sparse)
 	net, err := NewNet(nb, edges, r, "")
 	rec := rec5
@@ -140,10 +142,17 @@ func runC05(rec5, rec13 *vk.Rec, caseID, seedIdx int, regime string) {
 			}
 		}
 	}
+	var pubs []*brokerlab.Client
 	defer func() {
-		for _, c := range clients {
-			c.cl.Abort()
+		// sequential teardown: the simulated transport is single-threaded, so connections are ended one at a
+		// time and each Close (which notifies the swarm) is awaited before the next
+		net.Immediate = false
+		for _, c := range append(append([]*brokerlab.Client(nil), pubs...), liveClients(clients)...) {
+			c.Disconnect()
+			c.WaitClosed(20e9)
+			c.Abort()
 		}
+		net.Closed = true
 	}()
 	violated := false
 	fail := func(kind, desc string) {
@@ -237,11 +246,11 @@ func runC05(rec5, rec13 *vk.Rec, caseID, seedIdx int, regime string) {
 			} else {
 				ops = append(ops, "connect "+c.name)
 			}
-		case x < 84 && (regime == "S2" || regime == "S3"): // periodic full-state gossip somewhere
+		case x < 84 && (regime == "S2" || regime == "S3" || regime == "S4"): // periodic full-state gossip somewhere
 			i := r.Intn(nb)
 			ops = append(ops, fmt.Sprintf("tick n%d", i))
 			net.Tick(i)
-		case x < 92 && regime == "S3" && len(edges) > 0: // link flap
+		case x < 92 && (regime == "S3" || regime == "S4") && len(edges) > 0: // link flap
 			e := edges[r.Intn(len(edges))]
 			if l := net.link(e[0], e[1]); l.up {
 				ops = append(ops, fmt.Sprintf("link-down %d-%d", e[0], e[1]))
@@ -250,7 +259,7 @@ func runC05(rec5, rec13 *vk.Rec, caseID, seedIdx int, regime string) {
 				ops = append(ops, fmt.Sprintf("link-up %d-%d", e[0], e[1]))
 				net.LinkUp(e[0], e[1])
 			}
-		case x < 96 && regime == "S3" && nb >= 2: // a broker becomes unreachable long enough to be garbage collected
+		case x < 96 && regime == "S4" && nb >= 2: // a broker becomes unreachable long enough to be garbage collected
 			i := r.Intn(nb)
 			if isolated[i] {
 				continue
@@ -358,14 +367,64 @@ func runC05(rec5, rec13 *vk.Rec, caseID, seedIdx int, regime string) {
 				}
 			}
 			rec.Inc("routing_table_comparisons")
+			// attribution: does broker i's replicated state agree with the ground truth for the peer and this channel?
+			mech := func(peerID string) string {
+				j := -1
+				for x := range net.Nodes {
+					if net.Nodes[x].Name.String() == peerID {
+						j = x
+					}
+				}
+				if j < 0 {
+					return "unknown-peer"
+				}
+				entries := net.Nodes[i].B.Svc.VerifSwarm().VerifState().VerifEntries(event.VerifSubs)
+				for _, f := range c05Filters {
+					if !matchLv(f, ch) {
+						continue
+					}
+					truth := false
+					for _, c := range clients {
+						if c.alive && c.node == j {
+							if _, ok := c.subs[cstr(f)]; ok {
+								truth = true
+							}
+						}
+					}
+					q := security.ParseChannel([]byte("k/" + cstr(f)))
+					want := message.NewSsid(net.Nodes[0].B.Contract, q.Query)
+					stateActive := false
+					for k, tm := range entries {
+						if len(k) < 16 || binary.BigEndian.Uint64([]byte(k[:8])) != uint64(net.Nodes[j].Name) {
+							continue
+						}
+						if (len(k)-16)/4 != len(want) {
+							continue
+						}
+						same := true
+						for w := range want {
+							if binary.BigEndian.Uint32([]byte(k[16+4*w:20+4*w])) != want[w] {
+								same = false
+							}
+						}
+						if same && tm[0] != 0 && tm[0] >= tm[1] {
+							stateActive = true
+						}
+					}
+					if stateActive != truth {
+						return "replicated-state-wrong"
+					}
+				}
+				return "state-correct-but-peer-bookkeeping-drifted"
+			}
 			for id := range want {
 				if !got[id] {
-					fail("missing-route", fmt.Sprintf("broker %d does not forward channel %s to broker %s which has a live matching subscriber", i, cstr(ch), id))
+					fail("missing-route/"+mech(id), fmt.Sprintf("broker %d does not forward channel %s to broker %s which has a live matching subscriber", i, cstr(ch), id))
 				}
 			}
 			for id := range got {
 				if !want[id] {
-					fail("stale-route", fmt.Sprintf("broker %d still forwards channel %s to broker %s which has no live matching subscriber", i, cstr(ch), id))
+					fail("stale-route/"+mech(id), fmt.Sprintf("broker %d still forwards channel %s to broker %s which has no live matching subscriber", i, cstr(ch), id))
 				}
 			}
 			if violated {
@@ -375,14 +434,14 @@ func runC05(rec5, rec13 *vk.Rec, caseID, seedIdx int, regime string) {
 	}
 	// ---- oracle 2: deliveries
 	if !violated {
-		pubs := make([]*brokerlab.Client, nb)
+		pubs = make([]*brokerlab.Client, nb)
 		for i := 0; i < nb; i++ {
 			pubs[i] = net.Nodes[i].B.Attach(fmt.Sprintf("pub%d", i), nil)
 			if rc, err := pubs[i].Connect(fmt.Sprintf("pub%d", i), "", nil); err != nil || rc != 0 {
 				rec.Inconclusive("publisher connect")
+				pubs = pubs[:i]
 				return
 			}
-			defer pubs[i].Abort()
 		}
 		net.Drain()
 		for i := 0; i < nb && !violated; i++ {
@@ -459,4 +518,14 @@ func keys(m map[string][]string) []string {
 	}
 	sort.Strings(k)
 	return k
+}
+
+func liveClients(cs []*cclient) []*brokerlab.Client {
+	var out []*brokerlab.Client
+	for _, c := range cs {
+		if c.alive {
+			out = append(out, c.cl)
+		}
+	}
+	return out
 }
